@@ -90,13 +90,18 @@ impl Scn2 {
         incs.retain(|i| i % unit == 0);
         let increment = *rng.pick(&incs);
         let has_con = rng.chance(70);
-        let convertibles: Vec<String> = if !has_con {
+        let mut convertibles: Vec<String> = if !has_con {
             vec![]
         } else if rng.chance(25) {
             vec!["con".into(), "con2".into()]
         } else {
             vec!["con".into()]
         };
+        // now and then the contract's own base denomination is listed as convertible too (instantiate accepts it)
+        if has_con && rng.chance(8) {
+            let at = rng.below(convertibles.len() as u64 + 1) as usize;
+            convertibles.insert(at, "base".into());
+        }
         let quotes: Vec<String> = if rng.chance(40) {
             vec!["usd".into(), "eur".into()]
         } else {
@@ -117,12 +122,15 @@ impl Scn2 {
             };
             markers.insert(d.to_string(), t.to_string());
         }
-        let approvers: Vec<&str> = match rng.below(10) {
+        let approvers: Vec<&str> = match rng.below(21) {
+            20 => vec![],
+            x => match x % 10 {
             0..=4 => vec!["approver"],
             5..=6 => vec!["approver", "approver2"],
             7 => vec!["approver", "exec"],
             8 => vec!["approver", "approver"],
             _ => vec!["approver2", "approver", "seller1"],
+            },
         };
         let executors: Vec<&str> = match rng.below(10) {
             0..=4 => vec!["exec"],
@@ -154,7 +162,12 @@ impl Scn2 {
         let bid_attrs = if rng.chance(attr_pct) { subset(rng, &ATTRS, 50) } else { vec![] };
         let mut attributes = BTreeMap::new();
         for a in ACCOUNTS {
-            let held = subset(rng, &ATTRS, 80);
+            let mut held = subset(rng, &ATTRS, 80);
+            // an account may hold several attributes under one name
+            if !held.is_empty() && rng.chance(12) {
+                let d = rng.pick(&held).clone();
+                held.push(d);
+            }
             if !held.is_empty() {
                 attributes.insert(a.to_string(), held);
             }
@@ -1043,6 +1056,23 @@ impl Scn2 {
             rb -= b;
             rq -= dq;
         }
+        // two equal lots taken in one block at the same price are logged as two identical adjacent events
+        // (only for fee-less bids, where the second event's fee share is trivially the same)
+        if fee_total.is_none() && !chaotic && rng.chance(25) {
+            if let Some(last) = events.last().cloned() {
+                let act = &last["action"];
+                let body = act.get("Fill").or_else(|| act.get("Reject"));
+                let amt = |v: &Value, k: &str| v[k]["amount"].as_str().and_then(|x| x.parse::<u128>().ok());
+                if let Some(body) = body {
+                    if let (Some(lb), Some(lq)) = (amt(body, "base"), amt(body, "quote")) {
+                        let at_limit = p.and_then(|p| p.times(lb).whole_u128()) == Some(lq);
+                        if at_limit && rb > lb && rq >= lq {
+                            events.push(last);
+                        }
+                    }
+                }
+            }
+        }
         json!({"put_bid_v2": {
             "base": Self::coin("base", size),
             "events": events,
@@ -1084,8 +1114,9 @@ impl Scn2 {
             let owner = self.trader(rng, &["seller1", "seller2"]);
             // plain, or (40 % where the market has convertibles) a convertible ask as the old
             // versions stored it: still pending, or approved with the approver's escrow
-            let (base, class) = if !self.convertibles.is_empty() && rng.chance(40) {
-                let con = rng.pick(&self.convertibles).clone();
+            let true_cons: Vec<String> = self.convertibles.iter().filter(|c| c.as_str() != "base").cloned().collect();
+            let (base, class) = if !true_cons.is_empty() && rng.chance(40) {
+                let con = rng.pick(&true_cons).clone();
                 if rng.chance(50) {
                     (con, json!({"Convertible": {"status": "PendingIssuerApproval"}}))
                 } else {
